@@ -73,6 +73,9 @@ MUTANTS: Dict[str, List[M]] = {
         ("Callable arm no longer converts AttributeError", "_typehints.py", "            except (ImportError, AttributeError, ArgumentError) as ex:\n                raise_unexpected_value(f\"Type {typehint} expects a function", "            except (ImportError, ArgumentError) as ex:\n                raise_unexpected_value(f\"Type {typehint} expects a function", "C03.R6"),
         ("yaml_load converts ValueError only", "_loaders_dumpers.py", "    except (ValueError, AttributeError) as ex:  # raised by the constructors", "    except ValueError as ex:  # raised by the constructors", "C03.R5"),
         ("yaml_load no longer converts constructor ValueError", "_loaders_dumpers.py", "    except (ValueError, AttributeError) as ex:  # raised by the constructors", "    except KeyError as ex:  # raised by the constructors", "C03.R5"),
+        ("sub-command settings stored whatever their type", "_core.py", "                elif action is not None and split_key_leaf(key)[-1] != action.dest:\n                    raise TypeError(f'Expected the settings of subcommand \"{key}\" to be a dict, but got: {value!r}')\n", "", "C03.R9"),
+        ("sub-command settings check skips None", "_core.py", "                elif action is not None and split_key_leaf(key)[-1] != action.dest:", "                elif action is not None and value is not None and split_key_leaf(key)[-1] != action.dest:", "C03.R9"),
+        ("TYPE_CHECKING blocks executed under a narrow handler", "_postponed_annotations.py", "                exec(compile(ast_exec, filename=\"<ast>\", mode=\"exec\"), self.aliases, self.aliases)\n            except Exception as ex:", "                exec(compile(ast_exec, filename=\"<ast>\", mode=\"exec\"), self.aliases, self.aliases)\n            except (NameError, ImportError) as ex:", "C03.R8"),
         ("subcommand parser does not inherit exit_on_error", "_actions.py", "        parser.exit_on_error = self.parent_parser.exit_on_error\n", "", "C03.R3"),
         ("ActionTypeHint no longer converts ValueError", "_typehints.py", "            except (TypeError, ValueError) as ex:\n                if self._is_valid_string(val):", "            except TypeError as ex:\n                if self._is_valid_string(val):", "C03.R4"),
     ],
